@@ -86,7 +86,7 @@ func explore(r *engine.R, s system, maxDepth, maxStates, part, nparts int) bfsSt
 	var st bfsStats
 	t0, c0 := time.Now(), cpuSeconds()
 	defer func() {
-		if os.Getenv("C17_TIMING") != "" {
+		if os.Getenv("C24_TIMING") != "" {
 			r.Note(fmt.Sprintf("timing %s: states=%d trans=%d depth=%d closed=%v wall %.1fs cpu %.1fs", s.Name(), st.states, st.trans, st.maxDepth, st.closed, time.Since(t0).Seconds(), cpuSeconds()-c0))
 		}
 	}()
